@@ -660,7 +660,17 @@ def run(chk):
                    '(1e-7 for r_q_cost, whose quad call has default tolerance 1.49e-8) and a 1e-7 margin rule for (r,Q) decisions',
                    'library functions (poisson pmf/cdf, norm ppf/cdf/pdf, sqrt, fsolve, quad) are inputs/Section variables of the model with the '
                    'stated hypotheses (sqrt x * sqrt x = x, residual bound of the root finder, mean-value bounds of the integral)']
+    # the closed-form / bisection part of rq.py (and ss.s_s_power_approximation) is REGENERATED from the source before the proofs are checked
+    # (gen/Gen_rq.v, gen/Gen_ss.v; theorems C14_gen_* / C13_gen_power_* of Props/C14.v are about these terms): fail-closed
+    from props import c14_gen
+    import py2v
+    errs = py2v.translate_all()
+    for q in c14_gen.LOOPFREE + c14_gen.LOOPY:
+        if q not in py2v.FUNCS and q not in py2v.LOOPY_FUNCS:
+            chk.broken.append(('translator:' + q, dict(errs).get(q, 'function not found in the source') + ' ' + str(py2v.LOOP_ERRORS.get(q, ''))))
+    chk.checker_cmd = 'python /verif/py/py2v.py && ' + chk.checker_cmd
     chk.proof()
+    c14_gen.gen_tie_stream(chk, 30 if chk.tier == 'quick' else 400)
     if chk.tier == 'quick': n, ntie, nmal, nnorm, nbnd = 120, 8, 30, 80, 16
     else: n, ntie, nmal, nnorm, nbnd = 1500, 60, 200, 1200, 400
     explore_poisson(chk, n, ntie)
